@@ -150,6 +150,9 @@ func registerIntrinsics(ex *Executor) {
 	I["@verifParBegin"] = parBegin
 	I["@verifParMid"] = parMid
 	I["@verifParEnd"] = parEnd
+	I["@verifBackground"] = func(ex *Executor, st *State, cc *CallCtx, args []Val) (Val, ctl) {
+		return nil, cNext
+	}
 	I["@verifYield"] = func(ex *Executor, st *State, cc *CallCtx, args []Val) (Val, ctl) {
 		return ex.yield(st, cc)
 	}
